@@ -583,6 +583,7 @@ func (r *Run) RunChildren(testName string, units []string, par int, perChild tim
 			done <- res{u, out, err, file}
 		}(i, u)
 	}
+	relayed := map[string]bool{}
 	results := map[string]res{}
 	for range units {
 		x := <-done
@@ -592,8 +593,14 @@ func (r *Run) RunChildren(testName string, units []string, par int, perChild tim
 		x := results[u]
 		merged := r.mergePartial(x.file) == nil
 		os.Remove(x.file)
-		// relay the child's report lines
+		// relay the child's report lines (each distinct line once)
 		for _, l := range strings.Split(string(x.out), "\n") {
+			if strings.HasPrefix(l, "KNOWN-FINDING:") || strings.HasPrefix(l, "NOTE:") {
+				if relayed[l] {
+					continue
+				}
+				relayed[l] = true
+			}
 			if strings.HasPrefix(l, "VIOLATION ") || strings.HasPrefix(l, "KNOWN-FINDING:") || strings.HasPrefix(l, "  key:") || strings.HasPrefix(l, "E1 ") || strings.HasPrefix(l, "E2 ") || strings.HasPrefix(l, "NOTE:") {
 				fmt.Println(l)
 			}
